@@ -109,20 +109,14 @@ func corsAndContextEffects(c *core.Ctx, R string) {
 		}
 		some := func(x *core.Unit, br core.Branch) int {
 			cmp, ok := x.BranchCmp(br)
-			if !ok || cmp.Val == nil || cmp.Val.ExactString() != "0" {
+			if !ok || cmp.Val == nil {
 				return 0
 			}
 			ce, _ := ast.Unparen(cmp.X).(*ast.CallExpr)
 			if ce == nil || calleeNameOf0(ce) != "len" || len(ce.Args) != 1 || fieldOf(x.Info(), ce.Args[0]) != "cors.varys" {
 				return 0
 			}
-			switch cmp.Op {
-			case token.GTR, token.NEQ:
-				return 1
-			case token.EQL:
-				return -1
-			}
-			return 0
+			return positiveEdge(cmp)
 		}
 		requireEffects(c, R, u, []effect{
 			{name: "copy-each-header", match: func(x *core.Unit, cl *core.Call) bool {
